@@ -382,6 +382,8 @@ def eval_cell(cell):
             if row is None:
                 continue
             P[kk] = row
+            # anti-vacuity: the distinct selection distributions (relative leaf index -> probability) actually observed
+            res.outcomes.add("row=" + ",".join("%d:%.4f" % (int(j) - kk, pj) for j, pj in sorted(row.items())))
             nontrivial = nontrivial or multi
             res.state("l=%.6g:k=%d" % (ell, kk))
         # double stochasticity: columns whose possible predecessors were all started
